@@ -126,6 +126,12 @@ func (s *sseSession) NotificationChannel() chan<- *JSONRPCNotification {
 	return s.notificationChannel
 }
 
+// pendingSSERequest is a server-to-client request waiting for its answer.
+type pendingSSERequest struct {
+	sessionID string                // The session the request was sent to; only it may answer.
+	result    chan *json.RawMessage // Receives the answer.
+}
+
 // jsonRPCEnvelope is a common structure for parsing JSON-RPC messages.
 // It's used to avoid duplicate anonymous struct definitions across functions
 // and can handle both success and error responses.
@@ -750,12 +756,17 @@ func (s *SSEServer) handleResponseMessage(ctx context.Context, rawMessage json.R
 		return
 	}
 
-	// Type assert to the correct channel type.
-	responseChan, ok := responseChanInterface.(chan *json.RawMessage)
+	// Type assert to the pending request; only the session it was sent to may answer it.
+	pending, ok := responseChanInterface.(*pendingSSERequest)
 	if !ok {
 		s.logger.Errorf("Invalid response channel type for request ID: %d", requestIDUint)
 		return
 	}
+	if session == nil || pending.sessionID != session.sessionID {
+		s.logger.Errorf("Ignoring response for request ID %d posted by a session it was not sent to", requestIDUint)
+		return
+	}
+	responseChan := pending.result
 
 	// Prepare response data.
 	var responseMessage *json.RawMessage
@@ -875,7 +886,7 @@ func (s *SSEServer) processRequestAsync(ctx context.Context, request *JSONRPCReq
 
 	// Check if this is a response to our roots/list request.
 	if s.isRootsListResponse(request) {
-		s.handleRootsListResponse(request)
+		s.handleRootsListResponse(request, session)
 		return
 	}
 
@@ -936,7 +947,7 @@ func (s *SSEServer) isRootsListResponse(request *JSONRPCRequest) bool {
 }
 
 // handleRootsListResponse processes responses from clients to our roots/list requests.
-func (s *SSEServer) handleRootsListResponse(request *JSONRPCRequest) {
+func (s *SSEServer) handleRootsListResponse(request *JSONRPCRequest, session *sseSession) {
 	var responseID interface{} = request.ID
 	var responseResult json.RawMessage
 	var responseError json.RawMessage
@@ -988,12 +999,17 @@ func (s *SSEServer) handleRootsListResponse(request *JSONRPCRequest) {
 		return
 	}
 
-	// Type assert to the correct channel type.
-	responseChan, ok := responseChanInterface.(chan *json.RawMessage)
+	// Type assert to the pending request; only the session it was sent to may answer it.
+	pending, ok := responseChanInterface.(*pendingSSERequest)
 	if !ok {
 		s.logger.Errorf("Invalid response channel type for request ID: %d", requestIDUint)
 		return
 	}
+	if session == nil || pending.sessionID != session.sessionID {
+		s.logger.Errorf("Ignoring response for request ID %d posted by a session it was not sent to", requestIDUint)
+		return
+	}
+	responseChan := pending.result
 
 	// Handle error response.
 	if len(responseError) > 0 {
@@ -1364,7 +1380,7 @@ func (s *SSEServer) SendRequest(ctx context.Context, sessionID string, request *
 	if s.responses == nil {
 		s.responses = make(map[uint64]interface{})
 	}
-	s.responses[requestIDUint] = resultChan
+	s.responses[requestIDUint] = &pendingSSERequest{sessionID: sessionID, result: resultChan}
 	s.responsesMu.Unlock()
 
 	// Clean up the response channel when done
